@@ -14,7 +14,7 @@ def plan(tier, seed):
             qs.append(Q("invwrap-n%d-b%d" % (n, bm), "c05.c", {"H_INVWRAP": None, "NN": n, "BMODE": bm, "KINIT": 1}, group="c05-invwrap",
                         replace_calls={"mzd_echelonize_m4ri": "verif_ech_stub"}, timeout=1500, fallback="kissat", mem_gb=10))
     for n in [1, 2, 3] + ([4] if T else []):
-        qs.append(Q("invnaive-n%d" % n, "c05.c", {"H_INVNAIVE": None, "NN": n}, group="c05-invnaive", unwindset={"mzd_gauss_delayed": n + 2}, timeout=2400, fallback="kissat", mem_gb=8))
+        qs.append(Q("invnaive-n%d" % n, "c05.c", {"H_INVNAIVE": None, "NN": n}, group="c05-invnaive", unwindset={"mzd_gauss_delayed": 2 * n + 2}, timeout=2400, fallback="kissat", mem_gb=8))
     for n in [1, 2, 3, 5, 8, 12] + ([16] if T else []):
         qs.append(Q("trtri-full-n%d" % n, "c05.c", {"H_TRTRI": None, "NN": n}, group="c05-trtri", timeout=2400, fallback="kissat", mem_gb=10))
     for n in [64, 65, 70, 130] + ([128, 192] if T else []):
